@@ -39,10 +39,20 @@ RULE = ("cases: (i) scramble_number on batches of consecutive numbers around 2^k
         "one mask per (key, numbits) over the whole process (observed from mask_for_key, or derived from "
         "argument and result of scramble_number when mask_for_key is not seen), every earlier scramble_number call "
         "replayed / unscrambled after later runs, all claimed-unique values of all runs pairwise distinct, context "
-        "numbers never reused. "
+        "numbers never reused; (ix) WAY IN / WAY OUT: recipes in dialect 2 and dialect 3 whose alpha generators use "
+        "alphabets made of characters that a layer between generator and output row may reinterpret (decimal digits "
+        "of 13 non-ASCII scripts alone / mixed with ASCII digits / two scripts, other numeric characters, ASCII digits "
+        "with '.', e/E, '_', whitespace, '+', x/o/b, separators), each code written through one of the formula paths "
+        "direct / hidden field relayed / this. / concatenation / filter / if-choice / var per iteration; oracle: all "
+        "top-level draws are observed in order and every output cell holds, character for character, the value its "
+        "generator returned for it (also for every run of a chain); the alphabet / template arguments observed on "
+        "arrival at the plugin's functions are the ones the recipe spells. "
         "non-trivial: a batch with >= 2 distinct accepted numbers, a process with a generator drawn >= 2 "
         "times, a recipe with >= 2 rows; distinct by case hash")
-TRUSTED = ["harness/c13.py: observation wrappers around scrambled_numbers.mask_for_key / .log / scramble_number and "
+TRUSTED = ["harness/c13.py: which output cell belongs to which draw is taken from the ORDER of the public unique_id calls "
+           "(fields draw once each, in the order written; `var:` fields before the row); when the number of draws is "
+           "not the number of cells no position is claimed",
+           "harness/c13.py: observation wrappers around scrambled_numbers.mask_for_key / .log / scramble_number and "
            "UniqueId.log (the model receives the observed mask and the observed int(log)+1 as its Section variables; "
            "in chain cases the masks form ONE table for the whole process)",
            "harness/c13.py: class-level wrappers around UniqueNumericIdGenerator / AlphaUniquifier __init__ and "
@@ -67,6 +77,7 @@ DEFAULT_ALPHABET = string.digits + string.ascii_uppercase
 K5 = "K5"
 NATIVE = "C13-native-literal"
 XSHAPE = "C13-cross-shape"
+V2FLOAT = "C13-v2-float-literal"
 
 
 # ================================================================ generation
@@ -254,6 +265,14 @@ def gen_recipe(rng):
                                                   _alphabet(rng, allow_odd=False)]),
                           "min_chars": rng.choice([None, None, 6, 4, 10, 12]),
                           "randomize_codes": rng.choice([None, None, None, False])})
+    for v in vars_:
+        if v["type"] == "alpha" and rng.random() < 0.2:
+            v["alphabet"] = _alphabet_reinterp(rng)[1]
+            while _floatlike(v["alphabet"]):      # finding C13-v2-float-literal (way in): gen_outpath covers it
+                v["alphabet"] = _alphabet_reinterp(rng)[1]
+            if v["randomize_codes"] is not False and \
+                    max(8 if v["min_chars"] is None else v["min_chars"], 4) * (len(v["alphabet"]).bit_length() - 1) < 10:
+                v["min_chars"] = 12
     srcs = ["unique_id", "unique_alpha_code", "UniqueId.unique_id"] + [v["name"] for v in vars_]
     fields = []
     for s in srcs:
@@ -266,6 +285,155 @@ def gen_recipe(rng):
         fields = ["unique_id", "unique_alpha_code"]
     return {"kind": "recipe", "big": big, "pid": pid, "vars": vars_, "fields": fields,
             "count": rng.randint(1, 6), "iterations": rng.randint(1, 4), "ctx0": _ctx0(rng)}
+
+
+# ---------------------------------------------------------------- the way IN and the way OUT of a recipe
+# A code is a string; between the generator and the output row (and between the recipe text and the plugin)
+# sit layers that may read a string as something else: look_for_number (dialect 2), Jinja native types
+# (dialect 3), YAML.  The alphabets below are made of characters such a layer may reinterpret.
+DIGIT_SCRIPTS = {"arabic_indic": 0x0660, "ext_arabic_indic": 0x06F0, "nko": 0x07C0, "devanagari": 0x0966,
+                 "bengali": 0x09E6, "gujarati": 0x0AE6, "tamil": 0x0BE6, "thai": 0x0E50, "tibetan": 0x0F20,
+                 "myanmar": 0x1040, "khmer": 0x17E0, "mongolian": 0x1810, "fullwidth": 0xFF10}
+# numeric characters that are NOT decimal digits: str.isdigit() / str.isnumeric() say yes, int() says no
+OTHER_NUMERIC = "²³¹⁰⁴⁵①②③½Ⅳ〇一二三"
+ASCII_DIGITS = string.digits
+FLOATLIKE = re.compile(r"(?:0(?=\.)|[1-9][0-9]*)?\.[0-9]*", re.ASCII)
+
+
+def _floatlike(s):
+    """ASCII digits with exactly one '.', at least one digit, no leading 0 other than `0.`: the strings dialect 2
+    reads as floats (finding C13-v2-float-literal is about exactly these)"""
+    return isinstance(s, str) and bool(FLOATLIKE.fullmatch(s)) and any(ch in ASCII_DIGITS for ch in s)
+
+
+def _script(rng, name=None):
+    name = name or rng.choice(sorted(DIGIT_SCRIPTS))
+    return name, "".join(chr(DIGIT_SCRIPTS[name] + i) for i in range(10))
+
+
+def _some(rng, chars, lo=2):
+    """a subset of `chars` (at least `lo`), in order, rotated, or shuffled"""
+    k = rng.choice([len(chars), len(chars), rng.randint(lo, len(chars))])
+    r = rng.random()
+    if r < 0.4:
+        sub = list(chars[:k])
+    elif r < 0.6:
+        j = rng.randrange(len(chars))
+        sub = list((chars[j:] + chars[:j])[:k])
+    else:
+        sub = rng.sample(list(chars), k)
+    return "".join(sub)
+
+
+def _mix(rng, a, b):
+    r = rng.random()
+    if r < 0.35:
+        return a + b
+    if r < 0.7:
+        return b + a
+    x = list(a + b)
+    rng.shuffle(x)
+    return "".join(x)
+
+
+def _alphabet_reinterp(rng):
+    """(class label, alphabet): duplicate-free, size >= 2, no '-' (the base converter's sign character)"""
+    r = rng.random()
+    if r < 0.2:
+        name, d = _script(rng)
+        return "script", _some(rng, d)
+    if r < 0.4:
+        name, d = _script(rng)
+        return "script+ascii_digits", _mix(rng, _some(rng, d), _some(rng, ASCII_DIGITS))
+    if r < 0.47:
+        (n1, d1), (n2, d2) = _script(rng), _script(rng)
+        if n1 == n2:
+            return "script", _some(rng, d1)
+        return "two_scripts", _mix(rng, _some(rng, d1), _some(rng, d2))
+    if r < 0.57:
+        return "ascii_digits", rng.choice(["123456789", "1234567890", "0123456789", "9876543210", "10", "12",
+                                           _some(rng, ASCII_DIGITS), _some(rng, ASCII_DIGITS)])
+    if r < 0.62:
+        return "other_numeric", _mix(rng, _some(rng, OTHER_NUMERIC), rng.choice(["", "", _some(rng, ASCII_DIGITS)]))
+    if r < 0.68:
+        name, d = _script(rng)
+        return "script+punct", _mix(rng, _some(rng, d), rng.choice([".", "_", " ", "+", "e", "E", ". "]))
+    # ASCII digits with a character that number syntaxes use
+    extra = rng.choice([".", ".", "e", "E", "eE", "_", "_", " ", "\t", " \t", "+", "+.", "e.", "e+", "x", "o", "b",
+                        "xabcdef", "_.", ". ", " ", " ", "　", ",", "'", "٫", "٬"])
+    digs = rng.choice(["01", "1", "12", "0", _some(rng, ASCII_DIGITS, 1), _some(rng, ASCII_DIGITS, 1)])
+    abc = _mix(rng, digs, extra)
+    if len(abc) < 2:
+        abc = "01" + extra
+    return "ascii_digits+" + ("space" if extra.strip() == "" or extra in (" ", " ", "　") else extra), abc
+
+
+def gen_outpath(rng, native=None, nvars=None):
+    """recipes whose alpha generators use alphabets that a layer between generator and output (or between recipe
+    and plugin) may reinterpret, in dialect 2 and 3, every code written through one of several formula paths:
+    `${{G.unique_id}}`, a hidden field relayed by a second formula, `this.`, string concatenation / filter inside
+    the formula, an `if`/choice, a `var:` evaluated once per iteration"""
+    if native is None:
+        native = rng.random() < 0.3
+    via_var = rng.random() < 0.2
+    vars_, classes = [], []
+    for i in range(nvars or rng.randint(1, 3)):
+        if i > 0 and rng.random() < 0.2:
+            vars_.append({"name": f"N{i}", "type": "num",
+                          "template": rng.choice([None, _template(rng, want_context=True)])})
+            continue
+        label, abc = _alphabet_reinterp(rng)
+        if native:
+            # dialect 3 reads "1,2" as a tuple and "'1'" as a string; finding C13-native-literal is stated for
+            # values that stop being strings, so keep its signature exact and leave these characters out
+            abc = "".join(ch for ch in abc if ch not in ",'\"jJ")
+            if len(abc) < 2:
+                label, abc = "ascii_digits+_", "01_"
+        classes.append(label)
+        rc = rng.choice([None, None, False, False])
+        mc = rng.choice([None, 1, 3, 4, 6, 10, 12, 16])
+        if rc is not False:
+            bits = len(abc).bit_length() - 1
+            if max(8 if mc is None else mc, 4) * bits < 10:
+                mc = 12
+        tpl = rng.choice([None, _template(rng, want_context=True), "context,index"])
+        if via_var and tpl is None:
+            tpl = "context,index"     # the generator is re-created in every iteration (see finding K5)
+        vars_.append({"name": f"G{i}", "type": "alpha", "template": tpl, "alphabet": abc, "min_chars": mc,
+                      "randomize_codes": rc})
+    fields, paths = [], []
+    for v in vars_:
+        for _ in range(rng.choice([1, 1, 2])):
+            fields.append(v["name"])
+            paths.append("var" if via_var else rng.choice(["direct", "direct", "relay", "this", "concat", "filter",
+                                                             "choice"]))
+    if rng.random() < 0.3:
+        fields.append(rng.choice(["unique_id", "unique_alpha_code"]))
+        paths.append("direct")
+    count = 1 if via_var else rng.choice([5, 12, 20, rng.randint(1, 40)])
+    iterations = rng.choice([3, 8, 15]) if via_var else rng.choice([1, 1, 2, 3])
+    big = rng.choice([None, False, True])
+    if not big and any(v["type"] == "alpha" and v["template"] is None for v in vars_):
+        iterations = 1            # otherwise the run is one more witness of finding K5
+    return {"kind": "recipe", "native": bool(native), "big": big,
+            "pid": rng.choice([None, None, 3, 123456789]), "vars": vars_, "fields": fields, "paths": paths,
+            "abc_classes": classes, "count": count, "iterations": iterations, "ctx0": _ctx0(rng)}
+
+
+def gen_outpath_edges():
+    """the plainest members of the class: every digit script alone and mixed with the ASCII digits, sequential
+    codes, dialect 2, written directly"""
+    out = []
+    for k, name in enumerate(sorted(DIGIT_SCRIPTS)):
+        d = "".join(chr(DIGIT_SCRIPTS[name] + i) for i in range(10))
+        abc = d if k % 3 == 0 else (d + ASCII_DIGITS if k % 3 == 1 else ASCII_DIGITS + d)
+        out.append({"kind": "recipe", "native": False, "big": None, "pid": None,
+                    "vars": [{"name": "G0", "type": "alpha", "template": "context,index", "alphabet": abc,
+                              "min_chars": 3 + k % 4, "randomize_codes": False if k % 2 else None}],
+                    "fields": ["G0"], "paths": ["direct"], "abc_classes": ["script" if k % 3 == 0 else
+                                                                          "script+ascii_digits"],
+                    "count": 12, "iterations": 1, "ctx0": 1})
+    return out
 
 
 def gen_separator_probe(randomize=True):
@@ -474,6 +642,9 @@ def generate(rng, tier):
         cases.append(gen_registry(rng))
     for _ in range(3 if q else 40):
         cases.append(gen_literal_pairs(rng))
+    cases.extend(gen_outpath_edges() if not q else rng.sample(gen_outpath_edges(), 4))
+    for i in range(26 if q else 600):
+        cases.append(gen_outpath(rng))
     for _ in range(1 if q else 6):
         cases.append(gen_padding_probe(rng))
     cases.extend(gen_chain_edges())
@@ -792,13 +963,32 @@ def recipe_text(case):
                 inside = inside and not ln.startswith("- ")
                 fixed.append(ln)
         lines = fixed
-    lines.append("- object: A")
-    lines.append(f"  count: {case['count']}")
-    lines.append("  fields:")
+    paths = case.get("paths") or []
+    body = []
     for i, s in enumerate(case["fields"]):
         expr = s if s in ("unique_id", "unique_alpha_code", "UniqueId.unique_id") else \
             (f"Registry.__{s}.unique_id" if reg else f"{s}.unique_id")
-        lines.append(f"    f{i}: ${{{{{expr}}}}}")
+        path = paths[i] if i < len(paths) else "direct"
+        if path == "var":          # evaluated once per iteration, before the rows (such cases have count 1)
+            lines += [f"- var: V{i}", f"  value: ${{{{{expr}}}}}"]
+            body.append(f"    f{i}: ${{{{V{i}}}}}")
+        elif path == "relay":
+            body += [f"    __c{i}: ${{{{{expr}}}}}", f"    f{i}: ${{{{__c{i}}}}}"]
+        elif path == "this":
+            body += [f"    __c{i}: ${{{{{expr}}}}}", f"    f{i}: ${{{{this.__c{i}}}}}"]
+        elif path == "concat":
+            body.append(f"    f{i}: ${{{{{expr} ~ ''}}}}")
+        elif path == "filter":
+            body.append(f"    f{i}: ${{{{{expr} | string}}}}")
+        elif path == "choice":
+            body += [f"    f{i}:", "      if:", "        - choice:", "            when: ${{1 > 2}}",
+                     "            pick: never", "        - choice:", f"            pick: ${{{{{expr}}}}}"]
+        else:
+            body.append(f"    f{i}: ${{{{{expr}}}}}")
+    lines.append("- object: A")
+    lines.append(f"  count: {case['count']}")
+    lines.append("  fields:")
+    lines += body
     return "\n".join(lines) + "\n"
 
 
@@ -828,6 +1018,7 @@ class _Trace:
         self.scr_seen = 0
         self.replay_fail = None
         self.orig_scramble = None
+        self.run_values = []      # values of the top-level draws since the last reset, in order
 
     # ---- installation
     def install(self):
@@ -957,6 +1148,8 @@ class _Trace:
                 self.scr.append([self.step, number, mb, r])
 
     def _drawn(self, obj, r, i0):
+        if len(self.run_values) < 20000:
+            self.run_values.append(_plain(r.get("ok")) if "ok" in r else None)
         evs = self.ev[i0:]
         del self.ev[i0:]
         self._note_masks(evs)
@@ -1057,6 +1250,7 @@ def _run_chain(case):
                         opts["pid"] = rc["pid"]
                     nf = len(rc["fields"])
                     res = {"step": si}
+                    tr.run_values = []
                     try:
                         out, nxt = io.StringIO(), io.StringIO()
                         prev = conts.get(step["lin"]) if step["cont"] else None
@@ -1073,6 +1267,10 @@ def _run_chain(case):
                         if isinstance(e, (KeyboardInterrupt, C._CaseTimeout)):
                             raise
                         res["err"] = C.canon_exc(e)
+                    if tr.installed:
+                        res["drawn"] = tr.run_values
+                        res["ndrawn"] = len(tr.run_values)
+                    tr.run_values = []
                     runs.append(res)
                     tr._note_masks(ev)
                     del ev[:]
@@ -1154,12 +1352,29 @@ def _run_chain(case):
 _DELETE = object()
 
 
+def _plain(v):
+    """a value as it can be stored in the observation (JSON): strings, ints and floats as they are"""
+    if isinstance(v, (str, int, float, bool, type(None))):
+        return v
+    return {"repr": repr(v)[:200]}
+
+
+def _arrival(typ, a, kw):
+    """the arguments a recipe's `UniqueId.AlphaCodeGenerator:` / `NumericIdGenerator:` call arrives with"""
+    d = {"type": typ, "template": _plain(kw.get("template")), "alphabet": _plain(kw.get("alphabet"))}
+    if typ == "alpha" and a and "template" not in kw:
+        d["template"] = _plain(a[0])
+    return d
+
+
 def _run_recipe(case):
     import snowfakery.standard_plugins.UniqueId as U
     from snowfakery import generate_data
     _set_ctx0(U, case)
     F = U.UniqueId.Functions
     created = []          # (type, kwargs, args, object)
+    arrived = []          # what the plugin's generator functions were called with (before they do anything)
+    order = []            # every top-level draw of the process, in order: the value returned (None: it raised)
     restored = []         # (args, object): numeric generators re-created from a continuation file
     draws = {}            # id(obj) -> list of draw records
     patches = []
@@ -1170,11 +1385,13 @@ def _run_recipe(case):
             orig_num, orig_alpha = F.NumericIdGenerator, F.AlphaCodeGenerator
 
             def NumericIdGenerator(self, *a, **kw):
+                arrived.append(_arrival("num", a, kw))
                 r = orig_num(self, *a, **kw)
                 created.append(("num", dict(kw), list(a), r))
                 return r
 
             def AlphaCodeGenerator(self, *a, **kw):
+                arrived.append(_arrival("alpha", a, kw))
                 r = orig_alpha(self, *a, **kw)
                 created.append(("alpha", dict(kw), list(a), r))
                 return r
@@ -1213,6 +1430,7 @@ def _run_recipe(case):
                     finally:
                         depth[0] -= 1
                         if depth[0] == 0:
+                            order.append(_plain(r.get("ok")) if "ok" in r else None)
                             lst = draws.setdefault(id(self), [])
                             r["k"] = len(lst)
                             r.update(_obs_of(ev[i0:]))
@@ -1282,6 +1500,10 @@ def _run_recipe(case):
                       "draws": draws.get(id(obj), [])[:400], "ndraws": len(draws.get(id(obj), [])), "bpc": None})
             gens.append(o)
     res.update({"gens": gens, "instrumented": instrumented, "have": have, "mask_is_function": _mask_table_ok(ev)})
+    if instrumented:
+        res["drawn"] = order[:20000]
+        res["ndrawn"] = len(order)
+        res["arrived"] = arrived[:2000]
     return res
 
 
@@ -1712,27 +1934,113 @@ def _native(code):
         return code
 
 
+def _draw_cells(case, nrows):
+    """the cells (row, field) of table A in the order in which their formulas draw: every field draws exactly once
+    per row, fields in the order they are written; fields written through a `var:` (count is 1 then) draw before
+    the row's other fields.  None when the recipe's shape does not determine the order."""
+    nf = len(case["fields"])
+    paths = case.get("paths") or []
+    varf = [i for i in range(nf) if i < len(paths) and paths[i] == "var"]
+    if varf and case.get("count") != 1:
+        return None
+    rest = [i for i in range(nf) if i not in varf]
+    return [(ri, i) for ri in range(nrows) for i in varf + rest]
+
+
+def _positional(case, obs):
+    """{(row, field): the value the generator returned for that cell} - only when the observed number of
+    top-level draws is exactly the number of cells (otherwise nothing is claimed about positions)"""
+    rows, drawn = obs.get("rows"), obs.get("drawn")
+    if not isinstance(rows, list) or not isinstance(drawn, list) or obs.get("ndrawn") != len(drawn):
+        return None
+    nf = len(case["fields"])
+    if any(len(r) != nf for r in rows):
+        return None
+    cells = _draw_cells(case, len(rows))
+    if cells is None or len(cells) != len(drawn) or any(d is None or isinstance(d, dict) for d in drawn):
+        return None
+    return dict(zip(cells, drawn))
+
+
+def _same_text(v, c):
+    """does the output value v consist of exactly the characters of the code c?  (A number whose decimal spelling
+    is the code itself - all-digit codes without a leading zero - is written with the code's characters.)"""
+    if isinstance(v, bool):
+        return False
+    if isinstance(v, str):
+        return v == c
+    if isinstance(v, int):
+        return str(v) == c
+    if isinstance(v, float):
+        return repr(v) == c
+    return False
+
+
 class _Scan:
     """distinctness / charset / length of the field values of one or several runs of ONE process.
+    With the draws observed in order (`drawn`): every output cell must hold, character for character, the value
+    its generator returned for it; v2float = (dialect 2 only) cells holding float(c) for a returned code c that is
+    ASCII digits with exactly one '.', and runs that fail because an `alphabet:` argument is such a string.
     K5 = collisions among alpha codes that all come from alpha generators created WITHOUT a template in
     small-id mode.  native_mangled = (native-types recipes only) alpha field values that are not the code the
     generator returned but the value of that code read as a Python literal.  cross_shape = equal values from
     generators whose template shapes differ."""
 
     def __init__(self):
-        self.other, self.k5, self.mangled, self.xshape = [], [], [], []
+        self.other, self.k5, self.mangled, self.xshape, self.v2float = [], [], [], [], []
         self.seen_num, self.seen_alpha = {}, {}
+        self.cells_positional = 0
+
+    def way_in(self, case, obs, label=""):
+        """the arguments the plugin's generator functions were called with are the ones the recipe spells"""
+        native = bool(case.get("native"))
+        abcs = {v.get("alphabet") for v in case["vars"] if v["type"] == "alpha"} | {None}
+        tpls = {v.get("template") for v in case["vars"]} | {None}
+        for a in obs.get("arrived") or []:
+            x = a.get("alphabet")
+            if a.get("type") == "alpha":
+                xs = str(x) if isinstance(x, int) and not isinstance(x, bool) else x
+                if isinstance(x, float) and not native and any(_floatlike(e) and float(e) == x for e in abcs if e):
+                    self.v2float.append(("alphabet", x, next(e for e in abcs if e and _floatlike(e) and
+                                                             float(e) == x), None, None))
+                elif xs not in abcs:
+                    self.other.append(f"recipe: {label}an `alphabet:` argument reached UniqueId.AlphaCodeGenerator as "
+                                      f"{x!r}; the recipe's alphabets are {sorted(e for e in abcs if e)!r}")
+            # templates: only what the constructor reads out of them matters (it strips and lower-cases the parts)
+            t = a.get("template")
+            if isinstance(t, str) and t and (t not in tpls) and \
+                    _shape(t) not in {_shape(e) for e in tpls if isinstance(e, str) and e}:
+                self.other.append(f"recipe: {label}a `template:` argument reached the plugin as {t!r}; the recipe's "
+                                  f"templates are {sorted(e for e in tpls if e)!r}")
 
     def run(self, case, obs, recorded=None, complete=False, label=""):
-        other, k5, mangled, xshape = self.other, self.k5, self.mangled, self.xshape
+        other, k5, mangled, xshape, v2float = self.other, self.k5, self.mangled, self.xshape, self.v2float
         seen_num, seen_alpha = self.seen_num, self.seen_alpha
         small = not case["big"]
+        native = bool(case.get("native"))
+        n_other = len(other)
+        self.way_in(case, obs, label)
+        if not native and "arrived" not in obs:
+            # arrivals were not observed (runs of a chain; plugin functions not found): an alphabet that dialect 2
+            # reads as a float is attributed to the finding's way-in face without looking
+            for v in case["vars"]:
+                if v["type"] == "alpha" and _floatlike(v.get("alphabet")):
+                    v2float.append(("alphabet", float(v["alphabet"]), v["alphabet"], None, None))
         if "err" in obs:
             if obs["err"] == "DGE" and _min_bits_too_small(case):
                 return            # scramble_number's own `assert minbits >= 10` (an error, not a collision)
+            if obs["err"] == "DGE" and not native and len(other) == n_other and \
+                    any(x[0] == "alphabet" for x in v2float):
+                return            # the alphabet arrived as a float (finding C13-v2-float-literal, way in)
             other.append(f"recipe: {label}a valid recipe failed with {obs['err']}")
             return
         rows = obs["rows"]
+        pos = _positional(case, obs)
+        # generators whose alphabet arrived as a float (".0" arrives as 0.0, which the plugin takes for "no
+        # alphabet given"): their codes are over some other alphabet; that is the finding's way-in face
+        tainted = set()
+        if not native and any(x[0] == "alphabet" for x in v2float):
+            tainted = {v["name"] for v in case["vars"] if v["type"] == "alpha" and _floatlike(v.get("alphabet"))}
         src = _recipe_sources(case)
         expected_rows = case["count"] * case["iterations"]
         if len(rows) < expected_rows:
@@ -1742,12 +2050,21 @@ class _Scan:
             for fi, v in enumerate(row):
                 s = src[fi]
                 here = (f"{label}row {ri} f{fi}", s, case["fields"][fi])
+                if case["fields"][fi] in tainted:
+                    continue
                 if v is None:
                     other.append(f"recipe: {label}row {ri} field f{fi} is empty")
                     continue
+                c = pos.get((ri, fi)) if pos is not None else None
+                if pos is not None:
+                    self.cells_positional += 1
                 if s["type"] == "num":
                     if not isinstance(v, int):
                         other.append(f"recipe: numeric id f{fi} is not an integer: {v!r}")
+                        continue
+                    if pos is not None and (isinstance(v, bool) or c != v):
+                        other.append(f"recipe: {label}the generator returned {c!r} for row {ri} f{fi} "
+                                     f"({case['fields'][fi]}) but the output row holds {v!r}")
                         continue
                     if s["unique"]:
                         if v in seen_num:
@@ -1758,8 +2075,27 @@ class _Scan:
                                 other.append(f"recipe: numeric id {v} appears twice: {prev[0]} and {here[0]}")
                         seen_num.setdefault(v, here)
                 else:
-                    code = str(v)      # the output layer turns all-digit strings without a leading 0 into ints
                     abc = s["alphabet"]
+                    if pos is not None and not isinstance(c, str):
+                        other.append(f"recipe: {label}the alpha generator of row {ri} f{fi} returned {c!r}, "
+                                     f"not a string")
+                        continue
+                    if pos is not None and not _same_text(v, c):
+                        # the value that reached the row is not the code the generator returned
+                        c_ok = all(ch in abc for ch in c) and len(c) >= s["min_chars"]
+                        nv = _native(c) if native else None
+                        if native and c_ok and not isinstance(v, str) and type(nv) is type(v) and nv == v:
+                            mangled.append((v, c, ri, fi))
+                        elif not native and c_ok and isinstance(v, float) and _floatlike(c) and float(c) == v:
+                            v2float.append(("code", v, c, ri, fi))
+                        else:
+                            path = (case.get("paths") or [])[fi:fi + 1]
+                            other.append(f"recipe: {label}the generator returned the code {c!r} for row {ri} f{fi} "
+                                         f"(alphabet {abc!r}, dialect {3 if native else 2}, path "
+                                         f"{path[0] if path else 'direct'}) but the output row holds {v!r}")
+                        continue
+                    # without positions: the output layer turns all-digit strings without a leading 0 into ints
+                    code = c if pos is not None else str(v)
                     bad = None
                     if any(ch not in abc for ch in code):
                         bad = f"recipe: alpha code {v!r} (f{fi}) has characters outside {abc!r}"
@@ -1786,11 +2122,11 @@ class _Scan:
                         seen_alpha.setdefault(key, (here[0], dict(s, small=small), here[2]))
 
     def result(self):
-        return self.other, self.k5, self.mangled, self.xshape
+        return self.other, self.k5, self.mangled, self.xshape, self.v2float
 
 
 def _recipe_failures(case, obs):
-    """(other_failures, k5_collisions, native_mangled, cross_shape_collisions) of one recipe case"""
+    """(other_failures, k5_collisions, native_mangled, cross_shape_collisions, v2_float_literals) of one recipe"""
     # codes the alpha generators really returned (complete only if no generator was truncated)
     recorded, complete = [], bool(obs.get("instrumented"))
     for g in obs.get("gens", []):
@@ -1830,7 +2166,7 @@ def _chain_failures(case, obs):
     for r in obs.get("runs", []):
         step = case["steps"][r["step"]]
         sc.run(_chain_run_case(case, step), r, label=f"step {r['step']} ")
-    o2, k5, mangled, xshape = sc.result()
+    o2, k5, mangled, xshape, v2float = sc.result()
     other += o2
     by_out = {}
     for blk in obs.get("scrambles", []):
@@ -1886,7 +2222,7 @@ def _chain_failures(case, obs):
         other.append(f"chain: generators {i} (made in step {gi['made_in_step']}) and {j} (made in step "
                      f"{gj['made_in_step']}), both template {ki_.get('parts')!r}, different context numbers, both "
                      f"produced {v!r} (draws {ki} and {kj})")
-    return other, k5, mangled, xshape
+    return other, k5, mangled, xshape, v2float
 
 
 def _tuple_layout(spec, o):
@@ -2018,7 +2354,8 @@ def oracle(case, obs):
                     f"scramble_number is no longer a function of its input (the injectivity argument needs it)")
         return None
     if kind in ("recipe", "chain"):
-        other, k5, mangled, xshape = _recipe_failures(case, obs) if kind == "recipe" else _chain_failures(case, obs)
+        other, k5, mangled, xshape, v2float = _recipe_failures(case, obs) if kind == "recipe" else \
+            _chain_failures(case, obs)
         if other:
             return other[0]
         if xshape:
@@ -2029,6 +2366,13 @@ def oracle(case, obs):
             v, c, ri, fi = mangled[0]
             return (f"native-literal-class: snowfakery_version 3 emitted the alpha code {c!r} as {v!r} "
                     f"({type(v).__name__}) in row {ri} f{fi}; {len(mangled)} such values")
+        if v2float:
+            what, v, c, ri, fi = v2float[0]
+            if what == "alphabet":
+                return (f"v2-float-literal-class: dialect 2 handed the `alphabet:` argument {c!r} to the plugin as "
+                        f"the float {v!r}; {len(v2float)} such values")
+            return (f"v2-float-literal-class: dialect 2 emitted the alpha code {c!r} as the float {v!r} in row "
+                    f"{ri} f{fi}; {len(v2float)} such values")
         if k5:
             code, a, b = k5[0]
             return (f"K5-class: default alpha generators in small-id mode emitted {code!r} twice "
@@ -2045,24 +2389,30 @@ def match_finding(case, obs, msg, findings):
     created without a template (unique_alpha_code / default UniqueId.AlphaCodeGenerator).
     C13-cross-shape: a recipe whose ONLY failures (besides K5-class ones) are equal values from two generators
     whose template shapes differ (e.g. `index,context` against the default `context,index`).
+    C13-v2-float-literal: a dialect-2 recipe whose ONLY failures are cells holding float(c) for the code c the
+    generator returned for that cell (c = ASCII digits with exactly one '.'), or an alphabet of that form that
+    arrived at the plugin as a float.
     C13-native-literal: a `snowfakery_version: 3` recipe whose ONLY failures are alpha field values that equal
     ast.literal_eval(code) of a code the generator really returned (and that code itself is fine)."""
     ids = {f.get("id") for f in findings}
     if case.get("kind") not in ("recipe", "chain") or not isinstance(msg, str):
         return None
     try:
-        other, k5, mangled, xshape = _recipe_failures(case, obs) if case["kind"] == "recipe" else \
+        other, k5, mangled, xshape, v2float = _recipe_failures(case, obs) if case["kind"] == "recipe" else \
             _chain_failures(case, obs)
     except Exception:
         return None
     if other:
         return None
+    if msg.startswith("v2-float-literal-class") and V2FLOAT in ids and not case.get("native") and v2float \
+            and not xshape and not mangled:
+        return V2FLOAT
     if msg.startswith("cross-shape-class") and XSHAPE in ids and xshape:
         return XSHAPE
     if msg.startswith("native-literal-class") and NATIVE in ids and case.get("native") and mangled and not xshape:
         return NATIVE
     if msg.startswith("K5-class") and K5 in ids and (case["kind"] == "chain" or not case.get("big")) and k5 \
-            and not mangled and not xshape:
+            and not mangled and not xshape and not v2float:
         return K5
     return None
 
@@ -2091,6 +2441,7 @@ def stats(cases, obss):
     recipe_modes, recipe_rows, pid_kinds = Counter(), 0, Counter()
     features = Counter()
     chain = Counter()
+    wayout = Counter()
     total_draws = total_numbers = 0
     for c, o in zip(cases, obss):
         if not isinstance(o, dict):
@@ -2137,6 +2488,35 @@ def stats(cases, obss):
                     1 for g in o.get("gens", []) if "restored_args" in g)
             if c.get("native"):
                 features["recipe_native_types"] += 1
+            if "abc_classes" in c:
+                wayout["recipes"] += 1
+                wayout["dialect_3" if c.get("native") else "dialect_2"] += 1
+                for lab in c["abc_classes"]:
+                    wayout["alphabet:" + lab] += 1
+                for pth in c.get("paths", []):
+                    wayout["path:" + pth] += 1
+            for v in c["vars"]:
+                a = v.get("alphabet") if v["type"] == "alpha" else None
+                if a:
+                    if any(ord(ch) > 127 and ch.isdecimal() for ch in a):
+                        wayout["alphabets_with_non_ascii_decimal_digits"] += 1
+                    if any(ord(ch) > 127 and ch.isdecimal() for ch in a) and any(ch in ASCII_DIGITS for ch in a):
+                        wayout["alphabets_mixing_ascii_and_other_digits"] += 1
+                    if _floatlike(a):
+                        wayout["alphabets_that_read_as_a_float"] += 1
+            pos = _positional(c, o)
+            wayout["recipes_with_every_cell_tied_to_its_draw" if pos is not None else
+                   "recipes_without_positions"] += 1
+            if pos is not None:
+                wayout["cells_compared_with_their_draw"] += len(pos)
+                for (ri, fi), code in pos.items():
+                    v = o["rows"][ri][fi]
+                    if isinstance(code, str):
+                        wayout["alpha_cell_is_" + type(v).__name__] += 1
+                        if any(ord(ch) > 127 and ch.isdecimal() for ch in code) and \
+                                all(ch.isdecimal() for ch in code):
+                            wayout["codes_made_of_decimal_digits_not_all_ascii"] += 1
+            wayout["arguments_observed_on_arrival"] += len(o.get("arrived") or [])
             recipe_rows += len(o.get("rows", []))
             outcomes["recipe:" + (o.get("err") or "ok")] += 1
         elif k == "chain":
@@ -2166,12 +2546,17 @@ def stats(cases, obss):
             chain["trace_complete"] += bool(o.get("installed") and o.get("complete"))
             for r in o.get("runs", []):
                 outcomes["chain-run:" + (r.get("err") or "ok")] += 1
+                rc_ = _chain_run_case(c, c["steps"][r["step"]])
+                posr = _positional(rc_, r)
+                chain["runs_with_every_cell_tied_to_its_draw"] += posr is not None
+                chain["cells_compared_with_their_draw"] += len(posr or {})
     return {"kinds": dict(kinds), "scramble_numbers": total_numbers, "number_digits": dict(digits),
             "minbits": dict(minbits), "alphabet_sizes": {str(k): v for k, v in sorted(abc_sizes.items())},
             "generator_types": dict(gen_types), "template_lengths": {str(k): v for k, v in tpl_len.items()},
             "template_parts": dict(tpl_parts), "pid": dict(pid_kinds), "draws_per_generator": dict(draws),
             "total_generator_draws": total_draws, "recipe_modes": dict(recipe_modes), "recipe_rows": recipe_rows, "features": dict(features),
             "chains_of_runs_in_one_process": dict(chain),
+            "way_in_and_way_out_of_recipes": dict(wayout),
             "outcomes": dict(outcomes)}
 
 
@@ -2231,6 +2616,8 @@ def directed_search(rng, disagreeing):
     out.extend(gen_base(rng) for _ in range(200))
     out.extend(gen_process(rng, "quick") for _ in range(60))
     out.extend(gen_recipe(rng) for _ in range(40))
+    out.extend(gen_outpath_edges())
+    out.extend(gen_outpath(rng) for _ in range(80))
     out.extend(gen_chain(rng, "quick") for _ in range(30))
     out.extend(gen_literal_pairs(rng) for _ in range(30))
     out.extend(gen_padding_probe(rng, abc) for abc in ("GATC", "TGCA", "ZYX", "BA", "cba", None, None, None))
